@@ -29,6 +29,7 @@ type scenario struct {
 	n          int // number of random operations
 	maxH       int
 	exhaustive bool
+	checkFrom  int // directed scenarios: all views are read after step i only for i >= checkFrom
 }
 
 type replayFile struct {
@@ -75,6 +76,8 @@ func main() {
 	keyOrderCheck(res)
 	raceProbe(res, false)
 	raceProbe(res, true)
+	readErrorProbe(res, false)
+	readErrorProbe(res, true)
 	var scs []scenario
 	for _, c := range corpus() {
 		scs = append(scs, c)
@@ -102,6 +105,12 @@ func main() {
 		scs = append(scs, sc)
 	}
 	if f.Thorough() {
+		// one chain that crosses block 255/256 (one more key byte changes in every history key) on
+		// real iterators, both store kinds: writes and reverts around the boundary, all views read
+		// from block 253 on
+		for i, peb := range []bool{false, true} {
+			scs = append(scs, boundaryChain(fmt.Sprintf("block-256-boundary-%d", i), i == 0, peb))
+		}
 		// a few long chains
 		for i := 0; i < 6; i++ {
 			scs = append(scs, scenario{cfg: Config{Name: fmt.Sprintf("long-%d", i), SrcNew: i%2 == 0, Dst: []bool{false, true}, Pebble: i%3 == 2},
@@ -162,7 +171,7 @@ func main() {
 				} else {
 					res.Hit("scenario:directed")
 				}
-				for _, s := range sc.steps {
+				for si, s := range sc.steps {
 					if s.Op == "store" {
 						if d, err := decodeDiff(s.Version, s.Diff); err == nil {
 							e.describe(d)
@@ -175,7 +184,9 @@ func main() {
 						res.Fatalf("scenario %s: step cannot be executed: %v", sc.cfg.Name, err)
 						break
 					}
-					e.CheckAll()
+					if si >= sc.checkFrom {
+						e.CheckAll()
+					}
 					record()
 				}
 			} else {
@@ -228,6 +239,39 @@ func main() {
 	res.Note("total %.1fs", time.Since(t0).Seconds())
 	os.RemoveAll(scratch) // lib.Finish exits the process: deferred calls do not run
 	lib.Finish(f, res)
+}
+
+// boundaryChain: 253 cheap blocks, then writes of slots, nonce and class at blocks 253..261, then
+// six reverts (back below 256) and two more blocks.
+func boundaryChain(name string, srcNew, pebble bool) scenario {
+	v := "0.13.2"
+	steps := []Step{st(v, "d 104 c000 sa 104 sk 2 1 sa 1 sk 2 5")}
+	for i := 1; i < 253; i++ {
+		switch {
+		case i%50 == 7:
+			steps = append(steps, st(v, fmt.Sprintf("sa 104 sk 2 %x n 104 %x", i%5+1, i/50+1)))
+		case i%97 == 3:
+			steps = append(steps, st(v, fmt.Sprintf("sa 104 sk 3 %x", i%4)))
+		default:
+			steps = append(steps, st(v, ""))
+		}
+	}
+	check := len(steps)
+	steps = append(steps,
+		st(v, "sa 104 sk 2 2 sk 3 1"),            // 253
+		st(v, "sa 104 sk 2 3 n 104 9"),           // 254
+		st(v, "sa 104 sk 2 4 r 104 c001"),        // 255
+		st(v, "sa 104 sk 2 5 sk 3 0 n 104 a"),    // 256
+		st(v, "sa 104 sk 2 0 sa 1 sk 2 6"),       // 257
+		st(v, "d 105 c002 sa 105 sk 2 9"),        // 258
+		st(v, ""),                                // 259
+		st(v, "sa 104 sk 2 7 sk 4 1 r 104 c003"), // 260
+		st(v, "n 104 b"),                         // 261
+		rv, rv, rv, rv, rv, rv,                   // head back to 255
+		st(v, "sa 104 sk 2 8 sk 3 2"), // 256'
+		st(v, "sa 104 sk 2 0"),        // 257'
+	)
+	return scenario{cfg: Config{Name: name, SrcNew: srcNew, Dst: []bool{false, true}, Pebble: pebble}, steps: steps, checkFrom: check}
 }
 
 func pick(c bool, a, b string) string {
